@@ -623,3 +623,52 @@ package server
 //@ callers (*consumerGroup).assignPartition serves C12: (*consumerGroup).balanceAssignmentsForStream
 //@ callers (*consumer).assignPartition serves C12: (*consumerGroup).assignPartition
 //@ writers consumer.assignedCount serves C12: (*consumer).assignPartition, (*consumer).removeStreamAssignments
+
+// ---------------------------------------------------------------------------------------------
+// Cursors (property C11)
+//
+// the key a cursor is stored under in the compacted cursors stream
+//@ pure func cursorKeyOf(id string, stream string, p int32) string = id + "," + stream + "," + itoa(p)
+//@ func (*cursorManager).getCursorKey serves C11
+//@   modifies nothing
+//@   ensures [format] str(result) == cursorKeyOf(cursorID, streamName, partitionID)
+// two different (cursor id, stream, partition) triples must not share a key, or one cursor's value is returned for another
+//@ lemma cursorKeysDistinct serves C11: forall id1 string, s1 string, p1 int32, id2 string, s2 string, p2 int32 :: id1 != "" && s1 != "" && id2 != "" && s2 != "" && cursorKeyOf(id1, s1, p1) == cursorKeyOf(id2, s2, p2) ==> id1 == id2 && s1 == s2 && p1 == p2
+
+// ghost.curStored[k]: the offset the cursors stream currently holds for key k (what a faithful read of the log
+// returns: the value of the last successful SetCursor, -1 if none); ghost.curCached / curCacheVal: the LRU cache.
+// Invariant of the cursor lock: whenever the lock is free, a cached value is the stored one.
+//@ ghost var curStored ghostmap[string]int64
+//@ ghost var curKey string
+//@ ghost var curCached ghostmap[string]bool
+//@ ghost var curCacheVal ghostmap[string]int64
+//@ lockinv cursorManager.mu guards ghost.curStored, ghost.curCached, ghost.curCacheVal serves C11: forall k string :: ghost.curCached[k] ==> ghost.curCacheVal[k] == ghost.curStored[k]
+// reading the cursors partition back (reverse scan from the latest committed message) - assumed here; the pieces it
+// relies on are under contract elsewhere (reverse scanner start: C08/C10; subscription range: C10)
+//@ assume func (*cursorManager).getLatestCursorOffset
+//@   returns (off, err)
+//@   modifies nothing
+//@   ensures err == nil ==> off == ghost.curStored[str(cursorKey)]
+// SetCursor: the cursor is published with the cursor's key to the cursors partition with ack policy ALL, and the
+// cache is updated only after the publish succeeded, under the same lock, with the value that was published
+//@ func (*cursorManager).SetCursor serves C11
+//@   requires c != nil
+//@   ghost after call Publish: ghost.curKey := str(cursorKey)
+//@   ghost after call Publish: ghost.curStored[str(cursorKey)] := offset if ret1 == nil
+//@   ghost after call Add: ghost.curCached[unbox(arg1, "string")] := true
+//@   ghost after call Add: ghost.curCacheVal[unbox(arg1, "string")] := unbox(arg2, "int64")
+//@   call Publish requires [durable-store-under-the-cursor-key] arg2.AckPolicy == client.AckPolicy_ALL && arg2.Key == cursorKey && arg2.Value == serializedCursor && arg2.Stream == cursorsStream && arg2.Partition == cursorsPartitionID
+//@   call Add requires [cache-what-was-stored] unbox(arg1, "string") == str(cursorKey) && unbox(arg2, "int64") == offset
+//@   ensures [stored] result == nil ==> ghost.curStored[ghost.curKey] == offset
+// GetCursor answers with the stored offset - from the cache or from the log - and fills the cache consistently
+//@ func (*cursorManager).GetCursor serves C11
+//@   returns (off, st)
+//@   requires c != nil
+//@   ghost after call Get: ghost.curKey := unbox(arg1, "string")
+//@   ghost after call getLatestCursorOffset: ghost.curKey := str(arg2)
+//@   ghost after call Add: ghost.curCached[unbox(arg1, "string")] := true
+//@   ghost after call Add: ghost.curCacheVal[unbox(arg1, "string")] := unbox(arg2, "int64")
+//@   call Add requires [cache-under-the-cursor-key] unbox(arg1, "string") == str(cursorKey) && unbox(arg2, "int64") == offset
+//@   call Get requires [lookup-under-the-cursor-key] unbox(arg1, "string") == str(cursorKey)
+//@   call getLatestCursorOffset requires [read-under-the-cursor-key] arg2 == cursorKey
+//@   ensures [last-stored] st == nil ==> off == ghost.curStored[ghost.curKey]
